@@ -274,7 +274,7 @@ func genC10Doc(t *rapid.T) map[string]any {
 
 func genC10(t *rapid.T) any {
 	c := &C10Case{}
-	c.Class = rapid.SampledFrom([]string{"valid", "valid", "mutated", "mutated", "mutated", "bytes", "hostile", "hostile", "hostile-mutated", "fault", "fault", "fault", "cyclic-format", "join-on", "join-on", "scale", "dual-subquery", "stateful-builtins", "union-of-hostile"}).Draw(t, "class")
+	c.Class = rapid.SampledFrom([]string{"valid", "valid", "mutated", "mutated", "mutated", "bytes", "hostile", "hostile", "hostile-mutated", "fault", "fault", "fault", "cyclic-format", "join-on", "join-on", "scale", "dual-subquery", "stateful-builtins", "union-of-hostile", "parser-known-calls"}).Draw(t, "class")
 	c.Opts = genC10Opts(t)
 	c.Proc = rapid.SampledFrom([]int{0, 0, 1, 2, 4}).Draw(t, "procs")
 	if rapid.IntRange(0, 3).Draw(t, "reexec") == 0 {
@@ -466,6 +466,36 @@ func genC10(t *rapid.T) any {
 		case 1:
 			c.SQL = "SELECT k, (" + strings.Replace(c.SQL, " FROM "+from, " FROM dual", 1) + ") AS sb FROM " + from
 		}
+	case "parser-known-calls":
+		// calls and special forms the SQL grammar knows but the engine may not implement (aggregates, window
+		// functions, keyword-argument built-ins), in every clause: implemented or rejected, never a crash
+		c.Doc = genC10Doc(t)
+		call := rapid.SampledFrom([]string{"STD(k)", "STDDEV(k)", "STDDEV_POP(k)", "STDDEV_SAMP(k)", "VARIANCE(k)", "VAR_POP(k)", "VAR_SAMP(k)", "BIT_AND(k)", "BIT_OR(k)", "BIT_XOR(k)",
+			"GROUP_CONCAT(s)", "GROUP_CONCAT(DISTINCT s ORDER BY s SEPARATOR '-')", "COUNT(DISTINCT k)", "COUNT(DISTINCT k, s)", "SUM(DISTINCT k)", "ANY_VALUE(k)", "JSON_ARRAYAGG(k)", "JSON_OBJECTAGG(s, k)",
+			"ROW_NUMBER() OVER ()", "SUM(k) OVER (PARTITION BY s)", "LAG(k) OVER (ORDER BY k)", "NTILE(2) OVER ()", "FIRST_VALUE(k) OVER ()", "RANK() OVER (ORDER BY k)", "NTH_VALUE(k, 2) OVER ()",
+			"SUBSTRING(s FROM 1 FOR 2)", "TRIM(BOTH 'a' FROM s)", "EXTRACT(YEAR FROM s)", "CAST(k AS CHAR)", "CONVERT(k, CHAR)", "CONVERT(s USING utf8)", "s COLLATE utf8_bin", "INTERVAL 1 DAY + s",
+			"MATCH(s) AGAINST('a')", "CURRENT_TIMESTAMP", "CURRENT_DATE()", "LOCATE('a', s)", "WEIGHT_STRING(s)", "CHAR(65)", "TIMESTAMPADD(DAY, 1, s)", "TIMESTAMPDIFF(DAY, s, s)", "VALUES(k)", "DEFAULT(k)",
+			"JSON_EXTRACT(s, '$.a')", "s REGEXP 'a'", "k MEMBER OF ('[1]')", "EXISTS (SELECT STD(k) FROM t)", "MAX(STD(k))", "STD(MAX(k))", "ONCE.STD(k)", "ASYNC.VARIANCE(k)", "STD(*)", "STD()", "COUNT()", "MIN(k, s)"}).Draw(t, "pk.call")
+		from := "t"
+		if c.Opts.Wrapped {
+			from = "root.t"
+		}
+		switch rapid.IntRange(0, 7).Draw(t, "pk.pos") {
+		case 0, 1:
+			c.SQL = fmt.Sprintf("SELECT %s AS x FROM %s", call, from)
+		case 2:
+			c.SQL = fmt.Sprintf("SELECT s, %s AS x FROM %s GROUP BY s", call, from)
+		case 3:
+			c.SQL = fmt.Sprintf("SELECT k FROM %s WHERE %s > 1", from, call)
+		case 4:
+			c.SQL = fmt.Sprintf("SELECT s, COUNT(*) AS n FROM %s GROUP BY s HAVING %s > 0", from, call)
+		case 5:
+			c.SQL = fmt.Sprintf("SELECT k, (SELECT %s AS x FROM `<-t2`) AS sb FROM %s", call, from)
+		case 6:
+			c.SQL = fmt.Sprintf("SELECT k FROM %s ORDER BY %s", from, call)
+		default:
+			c.SQL = fmt.Sprintf("WITH c AS (SELECT %s AS x FROM %s) SELECT * FROM c UNION ALL SELECT %s AS x FROM %s", call, from, call, from)
+		}
 	case "union-of-hostile":
 		// a well-formed arm joined by UNION [ALL] with a hostile one, on either side (what fails in an arm must
 		// come back as the error of the statement, whichever arm it is and however the arms are evaluated)
@@ -590,7 +620,7 @@ func checkC10(c *C10Case) Result {
 		if parsed {
 			res.Labels = append(res.Labels, "reaches-build")
 		}
-		res.NonTrivial = parsed || c.Class == "fault" || c.Class == "cyclic-format" || c.Class == "mutated" || c.Class == "hostile-mutated" || c.Class == "scale" || c.Class == "dual-subquery" || c.Class == "stateful-builtins" || c.Class == "union-of-hostile"
+		res.NonTrivial = parsed || c.Class == "fault" || c.Class == "cyclic-format" || c.Class == "mutated" || c.Class == "hostile-mutated" || c.Class == "scale" || c.Class == "dual-subquery" || c.Class == "stateful-builtins" || c.Class == "union-of-hostile" || c.Class == "parser-known-calls"
 	}
 	return res
 }
